@@ -302,13 +302,15 @@ nfa, with no epsilon transition
             start_eclose = self.eclose_iterable(self._start_state)
         else:
             start_eclose = self._start_state
-        start_state = to_single_state(start_eclose)
+        names = _UniqueNames()
+        start_state = names.get(frozenset(start_eclose),
+                                to_single_state(start_eclose))
         dfa.add_start_state(start_state)
         to_process = [start_eclose]
         processed = {start_state}
         while to_process:
             current = to_process.pop()
-            s_from = to_single_state(current)
+            s_from = names.get(frozenset(current), to_single_state(current))
             for symb in self._input_symbols:
                 all_trans = [self._transition_function(x, symb)
                              for x in current]
@@ -320,7 +322,8 @@ nfa, with no epsilon transition
                 # Eclose added
                 if eclose:
                     state = self.eclose_iterable(state)
-                state_merged = to_single_state(state)
+                state_merged = names.get(frozenset(state),
+                                         to_single_state(state))
                 dfa.add_transition(s_from, symb, state_merged)
                 if state_merged not in processed:
                     processed.add(state_merged)
@@ -600,21 +603,27 @@ nfa, with no epsilon transition
         symbols = list(self.symbols.intersection(other.symbols))
         to_process = []
         processed = set()
+        names = _UniqueNames()
+
+        def combine(state0, state1):
+            # Two different pairs must not get the same name
+            return names.get((state0, state1),
+                             combine_state_pair(state0, state1))
         for st0 in self.eclose_iterable(self.start_states):
             for st1 in other.eclose_iterable(other.start_states):
-                enfa.add_start_state(combine_state_pair(st0, st1))
+                enfa.add_start_state(combine(st0, st1))
                 to_process.append((st0, st1))
                 processed.add((st0, st1))
         for st0 in self.final_states:
             for st1 in other.final_states:
-                enfa.add_final_state(combine_state_pair(st0, st1))
+                enfa.add_final_state(combine(st0, st1))
         while to_process:
             st0, st1 = to_process.pop()
-            current_state = combine_state_pair(st0, st1)
+            current_state = combine(st0, st1)
             for symb in symbols:
                 for new_s0 in self.eclose_iterable(self(st0, symb)):
                     for new_s1 in other.eclose_iterable(other(st1, symb)):
-                        state = combine_state_pair(new_s0, new_s1)
+                        state = combine(new_s0, new_s1)
                         enfa.add_transition(current_state, symb, state)
                         if (new_s0, new_s1) not in processed:
                             processed.add((new_s0, new_s1))
@@ -974,3 +983,22 @@ def to_single_state(l_states: Iterable[State]) -> State:
 def combine_state_pair(state0, state1):
     """ Combine two states """
     return State(str(state0.value) + "; " + str(state1.value))
+
+
+class _UniqueNames:
+    """ Gives one state per key: when two different keys have the same \
+    textual name, the second name is made different """
+    # pylint: disable=too-few-public-methods
+
+    def __init__(self):
+        self._names = {}
+        self._used = set()
+
+    def get(self, key, state):
+        """ The state associated with a key, state being its wished name """
+        if key not in self._names:
+            while state in self._used:
+                state = State(str(state.value) + "'")
+            self._used.add(state)
+            self._names[key] = state
+        return self._names[key]
